@@ -10,11 +10,11 @@ from ..session import Outcome
 from . import PropBase, steps_with_ids
 
 FAULTS = ("other_module_first", "stack", "clear", "clear_typing", "order", "exhaust_scan")
-WRAPPERS = ("newtype", "alias", "salias", "final", "classvar", "sref", "fref")
+WRAPPERS = ("newtype", "alias", "salias", "xalias", "final", "classvar", "sref", "fref")
 POSITIONS = ("root", "list", "dict", "tuple", "union", "field")
 
 
-def build_chain(rng, base_t, mod, counter, decls, position):
+def build_chain(rng, base_t, mod, counter, decls, position, xdecls=None):
     """Wrap ``base_t`` in a chain of 1-3 wrappers.  Declarations needed by the chain are
     appended to ``decls`` (of module ``mod``).  Returns (wrapped type AST, chain)."""
     n = rng.randint(1, 3)
@@ -26,6 +26,8 @@ def build_chain(rng, base_t, mod, counter, decls, position):
         if last:
             # qualifiers and references are use-site wrappers: outermost only
             options += ["sref", "fref"]
+            if xdecls is not None and position != "field":
+                options += ["xalias"]  # a value alias declared in *another* module (the relay, which binds no other name)
             if position in ("root", "field"):
                 options += ["final"]
             if position == "root":
@@ -49,6 +51,11 @@ def build_chain(rng, base_t, mod, counter, decls, position):
             name = f"VwS{counter[0]}"
             decls.append({"d": "alias", "n": name, "t": cur, "string": True})
             cur = {"k": "ref", "m": mod, "n": name}
+        elif w == "xalias":
+            counter[0] += 1
+            name = f"VwX{counter[0]}"
+            xdecls.append({"d": "alias", "n": name, "t": cur})
+            cur = {"k": "ref", "m": "vwr", "n": name}
         elif w == "final":
             cur = {"k": "final", "a": cur}
         elif w == "classvar":
@@ -179,7 +186,7 @@ class C11(PropBase):
             home = rng.choice(mods) if not any(n["k"] == "ref" for n in model.twalk(base)) else _home_of(base, mods)
             pos = rng.choice(POSITIONS)
             home_decls = next(m for m in world["modules"] if m["name"] == home)["decls"]
-            wrapped, chain = build_chain(rng, base, home, counter, home_decls, pos)
+            wrapped, chain = build_chain(rng, base, home, counter, home_decls, pos, xdecls=world["modules"][-1]["decls"])
             pairs = [gen.gen_pair(rng, base, lk, cfg) for _ in range(2)]
             case = {"base": base, "wrapped": wrapped, "chain": chain, "pos": pos, "home": home, "pairs": pairs}
             if pos == "field":
